@@ -1116,7 +1116,7 @@ fn main() {
     }
 
     // --- stream 1: single binary operations
-    let n_bin = opts.tier.pick(2600u64, 90000u64);
+    let n_bin = opts.tier.pick(6000u64, 120000u64);
     for i in 0..n_bin {
         let mut r = Rng::for_case(opts.seed ^ 0xC20_0001, i);
         let surd_w = if i % 3 == 0 { 35 } else { 0 };
@@ -1128,7 +1128,7 @@ fn main() {
     }
 
     // --- stream 2: unary operations, clamp, sqrt
-    let n_un = opts.tier.pick(900u64, 30000u64);
+    let n_un = opts.tier.pick(2400u64, 40000u64);
     for i in 0..n_un {
         let mut r = Rng::for_case(opts.seed ^ 0xC20_0002, i);
         let opaque = r.chance(1, 3);
@@ -1167,7 +1167,7 @@ fn main() {
     }
 
     // --- stream 3: malformed operands (differential model <-> implementation only)
-    let n_mal = opts.tier.pick(260u64, 6000u64);
+    let n_mal = opts.tier.pick(400u64, 6000u64);
     for i in 0..n_mal {
         let mut r = Rng::for_case(opts.seed ^ 0xC20_0003, i);
         let m = gen_malformed(&mut r);
@@ -1184,7 +1184,7 @@ fn main() {
     // --- stream 3b: call-site result specialisation. For int/rational operands the dispatch
     //     tables of add/sub/mul/neg/abs/to_int/floor/ceil/numer/denom give a result type without
     //     nil: feeding the result to a function that only accepts non-nil numbers must compile.
-    let n_typed = opts.tier.pick(240u64, 5000u64);
+    let n_typed = opts.tier.pick(400u64, 5000u64);
     for i in 0..n_typed {
         let mut r = Rng::for_case(opts.seed ^ 0xC20_0006, i);
         let x = gen_num(&mut r, 0, 0);
@@ -1205,7 +1205,7 @@ fn main() {
         operands: Vec<Nm>,
     }
     let mut laws: Vec<Law> = vec![];
-    let n_law = opts.tier.pick(260u64, 9000u64);
+    let n_law = opts.tier.pick(700u64, 12000u64);
     for i in 0..n_law {
         let mut r = Rng::for_case(opts.seed ^ 0xC20_0004, i);
         let opaque = r.chance(1, 3);
@@ -1491,7 +1491,12 @@ fn main() {
         ev.hit(&format!("law:{}", law.name));
         let a: Vec<&String> = law.idx.iter().map(|i| &impl_out[*i]).collect();
         let ops: Vec<String> = law.operands.iter().map(|n| n.sx()).collect();
-        let any_nil = law.operands.iter().any(|n| *n == Nm::Nil);
+        // operands the law actually uses
+        let used: usize = match law.name {
+            "add-comm" | "mul-comm" | "sub-add-inverse" | "div-mul-inverse" => 2,
+            _ => 3,
+        };
+        let any_nil = law.operands[..used].iter().any(|n| *n == Nm::Nil);
         let ok = match law.name {
             "add-comm" | "mul-comm" | "add-assoc" | "mul-assoc" | "distrib" => {
                 // identical, except that a surd-involving side may have collapsed to a simpler kind
@@ -1502,7 +1507,7 @@ fn main() {
                 let y_zero = same_value(a[2], "(int 0)") == Some(true);
                 if any_nil || y_zero { a[0] == "nil" } else { same_value(a[0], a[1]) == Some(true) }
             }
-            "order-add" => a[0] == a[1],
+            "order-add" => if any_nil { a[1] == "nil" } else { a[0] == a[1] },
             _ => {
                 // x < y and sign z determine xz ? yz
                 if any_nil {
@@ -1529,7 +1534,7 @@ fn main() {
     }
 
     // --- literal desugaring: source literals through the real parser/compiler vs the model vs host
-    let n_lit = opts.tier.pick(360u64, 8000u64);
+    let n_lit = opts.tier.pick(600u64, 8000u64);
     let mut lit_src = vec![];
     let mut lit_req = vec![];
     let mut lit_host = vec![];
